@@ -909,6 +909,9 @@ func Run(sc Scenario) (events []Event, err error) {
 		}
 		ret["is"] = is
 		ret["isAbsent"] = errors.Is(doErr, proto.Error(9999))
+		ret["isErrHead"] = ch.IsErr(doErr, proto.Error(9998), exc.Code) && exc.IsCode(exc.Code)
+		ret["isErrAbsent"] = ch.IsErr(doErr, proto.Error(9999)) || ch.IsErr(doErr)
+		ret["isException"] = ch.IsException(doErr)
 	}
 	if doErr != nil {
 		ret["ctxMatch"] = r.caller.Err() != nil && errors.Is(doErr, r.caller.Err())
